@@ -246,7 +246,7 @@ type Server struct {
 	concurrencyChOnce sync.Once
 
 	idleConns map[net.Conn]*atomic.Int64
-	done      chan struct{}
+	done      atomic.Pointer[chan struct{}]
 
 	// Whether done was already closed. A ShutdownWithContext that gives up on
 	// its context leaves it closed but in place, and it must not be closed twice.
@@ -1988,8 +1988,9 @@ func (s *Server) Serve(ln net.Listener) error {
 
 	s.mu.Lock()
 	s.ln = append(s.ln, ln)
-	if s.done == nil {
-		s.done = make(chan struct{})
+	if s.done.Load() == nil {
+		done := make(chan struct{})
+		s.done.Store(&done)
 	}
 	s.mu.Unlock()
 	s.timeoutConcurrencyCh()
@@ -2090,8 +2091,8 @@ func (s *Server) ShutdownWithContext(ctx context.Context) (err error) {
 
 	lnerr := s.closeListenersLocked()
 
-	if s.done != nil && !s.doneClosed {
-		close(s.done)
+	if done := s.done.Load(); done != nil && !s.doneClosed {
+		close(*done)
 		s.doneClosed = true
 	}
 
@@ -2106,7 +2107,7 @@ func (s *Server) ShutdownWithContext(ctx context.Context) (err error) {
 
 		if open := s.open.Load(); open == 0 {
 			// There may be a pending request to call ctx.Done(). Therefore, we only set it to nil when open == 0.
-			s.done = nil
+			s.done.Store(nil)
 			s.doneClosed = false
 			return lnerr
 		}
@@ -3060,7 +3061,12 @@ func (ctx *RequestCtx) Deadline() (deadline time.Time, ok bool) {
 // Note: Because creating a new channel for every request is just too expensive, so
 // RequestCtx.s.done is only closed when the server is shutting down.
 func (ctx *RequestCtx) Done() <-chan struct{} {
-	return ctx.s.done
+	// Loaded atomically: a handler goroutine that kept the ctx after
+	// TimeoutError may still ask while Shutdown or the next Serve replaces it.
+	if done := ctx.s.done.Load(); done != nil {
+		return *done
+	}
+	return nil
 }
 
 // Err returns a non-nil error value after Done is closed,
@@ -3091,11 +3097,15 @@ func (ctx *RequestCtx) Value(key any) any {
 	return ctx.UserValue(key)
 }
 
-var fakeServer = &Server{
-	done: make(chan struct{}),
-	// Initialize concurrencyCh for TimeoutHandler
-	concurrencyCh: make(chan struct{}, DefaultConcurrency),
-}
+var fakeServer = func() *Server {
+	s := &Server{
+		// Initialize concurrencyCh for TimeoutHandler
+		concurrencyCh: make(chan struct{}, DefaultConcurrency),
+	}
+	done := make(chan struct{})
+	s.done.Store(&done)
+	return s
+}()
 
 type fakeAddrer struct {
 	net.Conn
